@@ -35,12 +35,29 @@ func c07sScenario(p c07sParams, bound int) vh.SScenario {
 		s.AdvanceQuiet(3*time.Second + 100*time.Millisecond)
 		decided, admitted, rejected := 0, 0, 0
 		total := p.Callers
+		release := false
+		if p.Mode == "halfopen" {
+			// one trial has already been admitted and is still running when the callers arrive
+			total++
+			s.Spawn("first-trial", func() {
+				_ = cb.Execute(func() error {
+					admitted++
+					decided++
+					s.WaitFor("first-trial-gate", func() bool { return release })
+					return nil
+				})
+			})
+			s.Settle()
+		}
 		inEpisode := 0 // trial bodies entered while every caller is still undecided or parked
 		results := make([]string, p.Callers)
 		x.Check = func(v vrt.Verdict) (string, string, string, bool) {
 			out := fmt.Sprintf("admitted=%d rejected=%d results=%v", admitted, rejected, results)
 			if v.Kind != vrt.OK {
 				return out, "", "", false
+			}
+			if p.Mode == "halfopen" {
+				inEpisode++ // the trial admitted in the setup belongs to the same episode
 			}
 			if inEpisode > p.MR {
 				return out, fmt.Sprintf("C07/half-open-admits-more-than-max_requests/%s", p.Mode),
@@ -65,6 +82,7 @@ func c07sScenario(p c07sParams, bound int) vh.SScenario {
 					// stay inside the trial until every caller has been admitted or rejected:
 					// all admitted bodies then belong to the same half-open episode
 					s.WaitFor("trial-gate", func() bool { return decided >= total })
+					release = true
 					if p.Outcomes[i] == 'f' {
 						return errTrial
 					}
@@ -89,26 +107,32 @@ func c07sScenario(p c07sParams, bound int) vh.SScenario {
 			}))
 		}
 		s.Join(ths...)
+		release = true
 	}}
 }
 
 func c07sScenarios() []vh.SScenario {
 	bound := 2
 	maxCallers := 2
+	maxMR := 2
 	if vres.Thorough() {
 		bound = 3
 		maxCallers = 3
+		maxMR = 3
 	}
 	var out []vh.SScenario
 	for ft := 1; ft <= 2; ft++ {
 		for st := 1; st <= 2; st++ {
-			for mr := 1; mr <= 2; mr++ {
-				for n := 2; n <= maxCallers; n++ {
-					if n <= mr {
+			for mr := 1; mr <= maxMR; mr++ {
+				for n := 2; n <= maxCallers+1; n++ {
+					if n <= mr-1 || (n > maxCallers && mr < 3) {
 						continue // cannot exceed the budget
 					}
-					for _, oc := range []string{"sss", "fss", "sfs"} {
+					for _, oc := range []string{"ssss", "fsss", "sfss"} {
 						out = append(out, c07sScenario(c07sParams{FT: ft, ST: st, MR: mr, Callers: n, Mode: "boundary", Outcomes: oc[:n]}, bound))
+					}
+					if st > 1 || mr > 1 {
+						out = append(out, c07sScenario(c07sParams{FT: ft, ST: st, MR: mr, Callers: n, Mode: "halfopen", Outcomes: "ssss"[:n]}, bound))
 					}
 				}
 			}
